@@ -5,6 +5,7 @@ import Goat.CfgMap
 import Goat.MuxThms
 import Goat.ServerConnThms
 import Goat.ClientStreamThms
+import Goat.Props.C14
 namespace Goat.Tie.C14
 open Goat
 
@@ -30,4 +31,6 @@ def registry_empty_when_idle_at_source := Mux.registry_empty_when_idle (muxCfg G
 def srv_registry_exact_at_source := ServerConn.srv_registry_exact (srvCfg Generated.cfg)
 def finishing_block_once_at_source := ClientStream.finishing_block_once (csCfg Generated.cfg)
 
+def failed_open_leaves_nothing_at_source := Props.C14.failed_open_leaves_nothing (openCfg Generated.cfg) (by decide)
+def registration_accounted_at_source := Props.C14.registration_accounted (openCfg Generated.cfg) (by decide)
 end Goat.Tie.C14
